@@ -226,9 +226,6 @@ func checkC14(c any, r *Rec) error {
 		if res.err == nil {
 			return wrap(fmt.Errorf("fault k=%d of %d was injected but execution succeeded with %q", k, ticks, res.out))
 		}
-		if !strings.Contains(res.err.Error(), errInjected.Error()) && base.err == nil {
-			return wrap(fmt.Errorf("fault k=%d: error %q does not report the injected fault", k, res.err))
-		}
 	}
 	// after all those failures a fault-free run must give the original result again
 	again, _, e := c14RunAll(tpl, cs.Variant, 0, nil, "")
